@@ -42,6 +42,9 @@ var knownText string
 
 var known map[string]bool
 
+// Known returns the keys of the functions known to the rules. Besides the exact keys it contains, for every known
+// function, the key "pkgpath#Name": a function that merely moved between the plain-function and method forms (or to
+// another receiver type) keeps its bare name and stays an anchor instead of being expanded away.
 func Known() map[string]bool {
 	if known == nil {
 		known = map[string]bool{}
@@ -49,10 +52,31 @@ func Known() map[string]bool {
 			l = strings.TrimSpace(l)
 			if l != "" && !strings.HasPrefix(l, "#") {
 				known[l] = true
+				if i := strings.LastIndex(l, "."); i >= 0 {
+					pkgAndRecv := l[:i]
+					name := l[i+1:]
+					pkg := pkgAndRecv
+					// strip a receiver component: the package path ends at the last '/'-segment's first '.'
+					if j := strings.LastIndex(pkgAndRecv, "/"); j >= 0 {
+						if k := strings.Index(pkgAndRecv[j:], "."); k >= 0 {
+							pkg = pkgAndRecv[:j+k]
+						}
+					} else if k := strings.Index(pkgAndRecv, "."); k >= 0 {
+						pkg = pkgAndRecv[:k]
+					}
+					known[pkg+"#"+name] = true
+				}
 			}
 		}
 	}
 	return known
+}
+
+func knownFunc(kn map[string]bool, f *types.Func) bool {
+	if kn[FuncKey(f)] {
+		return true
+	}
+	return f.Pkg() != nil && kn[f.Pkg().Path()+"#"+f.Name()]
 }
 
 // FuncKey is the stable name of a declared function: pkgpath.Name or pkgpath.Recv.Name.
@@ -72,6 +96,9 @@ func FuncKey(f *types.Func) string {
 	}
 	return f.Pkg().Path() + "." + f.Name()
 }
+
+// ExpandedSuffix marks the declaration of a helper all of whose uses were expanded in place.
+const ExpandedSuffix = "_inlexpanded"
 
 type helper struct {
 	fn   *types.Func
@@ -135,7 +162,7 @@ func Round(pkgs []*packages.Package, fset *token.FileSet, readFile func(string) 
 					continue
 				}
 				obj, _ := pk.TypesInfo.Defs[fd.Name].(*types.Func)
-				if obj == nil || kn[FuncKey(obj)] || ast.IsExported(fd.Name.Name) || fd.Name.Name == "init" || fd.Name.Name == "main" {
+				if obj == nil || knownFunc(kn, obj) || ast.IsExported(fd.Name.Name) || fd.Name.Name == "init" || fd.Name.Name == "main" {
 					continue
 				}
 				if why := ineligible(fd, obj, pk.TypesInfo); why != "" {
@@ -225,14 +252,11 @@ func Round(pkgs []*packages.Package, fset *token.FileSet, readFile func(string) 
 	// 3. drop helper declarations that are no longer referenced
 	for _, h := range helpers {
 		if h.uses > 0 && h.done == h.uses {
+			// the declaration stays (its imports stay used) under a name nothing refers to; the analysis skips functions
+			// carrying this suffix
 			fe := getFile(h.pkg, h.file)
-			start := h.decl.Pos()
-			if h.decl.Doc != nil {
-				start = h.decl.Doc.Pos()
-			}
-			s, e := off(start), off(h.decl.End())
-			nl := bytes.Count(fe.src[s:e], []byte("\n"))
-			fe.edits = append(fe.edits, edit{s, e, strings.Repeat("\n", nl)})
+			s, e := off(h.decl.Name.Pos()), off(h.decl.Name.End())
+			fe.edits = append(fe.edits, edit{s, e, h.decl.Name.Name + ExpandedSuffix})
 		}
 	}
 	out := map[string][]byte{}
@@ -1177,11 +1201,29 @@ func (x *expander) funcValues(root ast.Node) {
 			if sel := x.info.Selections[t]; sel != nil && sel.Kind() == types.MethodVal && len(sel.Index()) == 1 {
 				if o, isF := sel.Obj().(*types.Func); isF {
 					if hh := x.helpers[o]; hh != nil {
-						if id, isId := t.X.(*ast.Ident); isId {
-							if v, isV := x.info.Uses[id].(*types.Var); isV && !assigned[v] && !v.IsField() && v.Parent() != x.pk.Types.Scope() {
-								h = hh
-								prefix = x.text(t)
+						// the receiver operand is re-evaluated when the literal runs: only accept operands whose value cannot
+						// change (parameters / locals never assigned again, composite literals and selectors over them)
+						stable := true
+						ast.Inspect(t.X, func(n ast.Node) bool {
+							switch y := n.(type) {
+							case *ast.CallExpr, *ast.FuncLit:
+								stable = false
+							case *ast.UnaryExpr:
+								if y.Op == token.ARROW {
+									stable = false
+								}
+							case *ast.Ident:
+								if v, isV := x.info.Uses[y].(*types.Var); isV {
+									if assigned[v] || (!v.IsField() && v.Parent() == x.pk.Types.Scope()) {
+										stable = false
+									}
+								}
 							}
+							return stable
+						})
+						if stable {
+							h = hh
+							prefix = "(" + x.text(t.X) + ")." + t.Sel.Name
 						}
 					}
 				}
